@@ -125,3 +125,41 @@ package verifspec
 //@   ensures err == nil && isMainPkg(ref(fc.pkgCtx)) ==> len(decls) > 0 && decls[len(decls) - 1].FullName == "init:main"
 //@   ensures err == nil && isMainPkg(ref(fc.pkgCtx)) ==> forall(k, 0, len(decls) - 1, decls[k].FullName[0] == 102)
 //@   ensures err == nil && !isMainPkg(ref(fc.pkgCtx)) ==> forall(k, 0, len(decls), decls[k].FullName[0] == 102)
+
+// ---- ImportDependencies: the closure collectDependencies is a post-order walk with a memo table.  Invariant of the pair
+// (deps, paths), with k(s) the map-key identity of a string:
+//   every archive in deps is marked in paths; each marked path belongs to an archive in deps;
+//   and -- the order property -- every import of deps[i] is the import path of some deps[j] with j < i.
+// (The conjunct len(...) >= 0 in the order clause is always true; it puts the array read deps[i].Imports[m] outside the
+// existential so that it can serve as the instantiation trigger of the clause.)
+// pos(p) is ghost state: the index in deps of the archive whose path is p (set where the archive is appended); it is the
+// witness of "each marked path belongs to an archive in deps".
+// A call for `path` keeps the invariant, only extends deps, only adds marks, and on success leaves `path` marked.
+// Assumption about the callback (listed in evidence): importPkg(p) returns an archive whose ImportPath is p.
+//@ ghostfn pos int
+//@ func compiler.ImportDependencies#lit1
+//@ property C10
+//@   panics_only_if true
+//@   requires !isnil(paths)
+//@   requires forall(i, 0, len(deps), deps[i] != nil && has(paths, deps[i].ImportPath) && paths[key(deps[i].ImportPath)])
+//@   requires all(p, has(paths, p) && paths[p] ==> 0 <= pos(p) && pos(p) < len(deps) && key(deps[pos(p)].ImportPath) == p)
+//@   requires forall2(i, m, 0 <= i && i < len(deps) && 0 <= m && m < len(deps[i].Imports) ==> len(deps[i].Imports[m]) >= 0 && exists(j, 0, i, key(deps[j].ImportPath) == key(deps[i].Imports[m])))
+//@   after append: assert forall(m, 0, len(dep.Imports), len(dep.Imports[m]) >= 0 && 0 <= pos(key(dep.Imports[m])) && pos(key(dep.Imports[m])) < len(deps) && key(deps[pos(key(dep.Imports[m]))].ImportPath) == key(dep.Imports[m]))
+//@   after append: ghost pos(key(dep.ImportPath)) = len(deps)
+//@   oncall importPkg: assert true
+//@   oncall importPkg: returns r1 == nil ==> r0 != nil && key(r0.ImportPath) == key(a0)
+//@   oncall collectDependencies: self
+//@   loop 1 invariant 0 <= $i1 && $i1 <= len(dep.Imports) && !isnil(paths)
+//@   loop 1 invariant len(deps) >= len(old(deps)) && forall(i, 0, len(old(deps)), deps[i] == old(deps)[i])
+//@   loop 1 invariant all(p, has(old(paths), p) && old(paths)[p] ==> has(paths, p) && paths[p])
+//@   loop 1 invariant forall(i, 0, len(deps), deps[i] != nil && has(paths, deps[i].ImportPath) && paths[key(deps[i].ImportPath)])
+//@   loop 1 invariant all(p, has(paths, p) && paths[p] ==> 0 <= pos(p) && pos(p) < len(deps) && key(deps[pos(p)].ImportPath) == p)
+//@   loop 1 invariant forall2(i, m, 0 <= i && i < len(deps) && 0 <= m && m < len(deps[i].Imports) ==> len(deps[i].Imports[m]) >= 0 && exists(j, 0, i, key(deps[j].ImportPath) == key(deps[i].Imports[m])))
+//@   loop 1 invariant forall(m, 0, $i1, len(dep.Imports[m]) >= 0 && has(paths, dep.Imports[m]) && paths[key(dep.Imports[m])])
+//@   hint return: assert result == nil ==> forall(m, 0, len(dep.Imports), len(dep.Imports[m]) >= 0 && exists(j, 0, len(deps) - 1, key(deps[j].ImportPath) == key(dep.Imports[m])))
+//@   ensures len(deps) >= len(old(deps)) && forall(i, 0, len(old(deps)), deps[i] == old(deps)[i])
+//@   ensures all(p, has(old(paths), p) && old(paths)[p] ==> has(paths, p) && paths[p])
+//@   ensures result == nil ==> has(paths, path) && paths[key(path)]
+//@   ensures result == nil ==> forall(i, 0, len(deps), deps[i] != nil && has(paths, deps[i].ImportPath) && paths[key(deps[i].ImportPath)])
+//@   ensures result == nil ==> all(p, has(paths, p) && paths[p] ==> 0 <= pos(p) && pos(p) < len(deps) && key(deps[pos(p)].ImportPath) == p)
+//@   ensures result == nil ==> forall2(i, m, 0 <= i && i < len(deps) && 0 <= m && m < len(deps[i].Imports) ==> len(deps[i].Imports[m]) >= 0 && exists(j, 0, i, key(deps[j].ImportPath) == key(deps[i].Imports[m])))
